@@ -8,6 +8,7 @@ from ..common import gallina_str, gallina_list, gallina_bool
 HEADER = "From CV Require Import Base.Str Apath Stitch StitchInst Corr.Run.\nLocal Open Scope N_scope.\n"
 
 ALPHA = ["/", "/a", "/ab", "/b", "/a/x", "/a/y", "/ab/x", "/b/ñ", "/ñ", "/a/x/z", "/~"]
+DIRS = {"/", "/a", "/ab", "/b", "/a/x"}      # the paths of the alphabet that have others below them
 STATES = ["absent", "complete", "incomplete", "incomplete", "headless", "unopenable", "unopenable_closed", "nohunks_complete",
           "nohunks_incomplete"]
 
@@ -46,7 +47,7 @@ def rand_band(rng, bid, big=False):
             num += 1
         elif r < 0.2:
             num += 1                   # a gap in the numbering (missing hunk)
-        hs[str(num)] = [{"apath": p, "kind": "File" if p != "/" else "Dir", "mtime": bid} for p in h]
+        hs[str(num)] = [{"apath": p, "kind": "Dir" if p in DIRS else "File", "mtime": bid} for p in h]
         num += 1
     if rng.random() < 0.05:
         hs[str(10000 + num)] = [{"apath": "/~/zz", "kind": "File", "mtime": bid}]   # second sub-directory
@@ -117,7 +118,7 @@ def run(ctx):
     n_small, n_big = (260, 80) if quick else (6000, 2500)
     ctx.cov["rule"] = ("archives written by the independent writer: up to 4 bands, each absent / complete / incomplete / without head / "
                        "unopenable / unopenable-with-tail / without hunks, hunk splits with empty, undecodable and missing hunks, entries from "
-                       "an 11-path alphabet exercising the order; every band listed (with subtree filters); model stitch_list vs "
+                       "an 11-path alphabet exercising the order; every band listed (whole, under subtree selections, with an exclusion); model stitch_list vs "
                        "implementation vs a direct coding of the stitching rule. non-trivial = listing that takes entries from >= 2 bands")
     cases = []
     for t in range(n_small + n_big):
@@ -144,6 +145,12 @@ def run(ctx):
                 if open_band or ctx.rng.random() < 0.5:
                     steps.append({"op": "list", "band": int(bid), "subtree": s})
                     queries.append((int(bid), s))
+            # an exclusion filter (an anchored literal path: it and everything below it goes, siblings whose names merely
+            # extend it stay)
+            if ctx.rng.random() < (0.8 if open_band else 0.4):
+                x = ctx.rng.choice(["/a", "/ab", "/a/x", "/b", "/ñ", "/a/y", "/~", "/zz"])
+                steps.append({"op": "list", "band": int(bid), "excludes": [x]})
+                queries.append((int(bid), "!" + x))
         cases.append({"id": f"l{t}", "layout": layout, "queries": queries, "steps": steps})
     # exhaustive over the STATE of three stacked bands (fixed entries: each older band reaches further)
     fixed = {0: [["/", "/a"], ["/ab", "/b", "/a/x"], ["/a/y", "/b/ñ"]], 1: [["/", "/a", "/ab"], ["/b", "/a/x"]], 2: [["/", "/a"]]}
@@ -157,7 +164,7 @@ def run(ctx):
         for bid, st in enumerate(combo):
             if st == "absent":
                 continue
-            hs = {str(n): [{"apath": p, "kind": "File" if p != "/" else "Dir", "mtime": bid} for p in h] for n, h in enumerate(fixed[bid])}
+            hs = {str(n): [{"apath": p, "kind": "Dir" if p in DIRS else "File", "mtime": bid} for p in h] for n, h in enumerate(fixed[bid])}
             band = {"hunks": {} if st.startswith("nohunks") else hs}
             if st == "complete":
                 band.update(head=True, tail=True)
@@ -187,8 +194,8 @@ def run(ctx):
         for size in (1, 2, 3):
             old_hunks = [allp[i:i + size] for i in range(0, len(allp), size)]
             layout = {"bands": {
-                "0": {"head": True, "tail": True, "hunks": {str(n): [{"apath": p, "kind": "File" if p != "/" else "Dir", "mtime": 0} for p in h] for n, h in enumerate(old_hunks)}},
-                "1": {"head": True, "tail": False, "hunks": {"0": [{"apath": p, "kind": "File" if p != "/" else "Dir", "mtime": 1} for p in newer]}}}}
+                "0": {"head": True, "tail": True, "hunks": {str(n): [{"apath": p, "kind": "Dir" if p in DIRS else "File", "mtime": 0} for p in h] for n, h in enumerate(old_hunks)}},
+                "1": {"head": True, "tail": False, "hunks": {"0": [{"apath": p, "kind": "Dir" if p in DIRS else "File", "mtime": 1} for p in newer]}}}}
             cases.append({"id": f"o{ri}_{size}", "layout": layout, "queries": [(1, "/"), (1, "/a")],
                           "steps": [{"op": "write_archive", "layout": layout}, {"op": "list", "band": 1}, {"op": "list", "band": 1, "subtree": "/a"}]})
     res = ctx.cvh_run(cases)
@@ -213,7 +220,10 @@ def run(ctx):
                 ctx.oracle_fail("stitch/list-failed", f"listing band {bid} failed: {json.dumps(out.get('err'))[:200]}", {"layout": c["layout"], "band": bid})
                 continue
             got = [(e["apath"], e["raw"]["mtime"]) for e in out["value"]]
-            exp = [e for e in oracle_stitch(c["layout"], bid) if gen.comp_prefix(sub, e[0])]
+            if sub.startswith("!"):
+                exp = [e for e in oracle_stitch(c["layout"], bid) if not gen.comp_prefix(sub[1:], e[0])]
+            else:
+                exp = [e for e in oracle_stitch(c["layout"], bid) if gen.comp_prefix(sub, e[0])]
             bad = None
             for x, y in zip(got, got[1:]):
                 if gen.apath_cmp(x[0], y[0]) != 0:
@@ -241,13 +251,18 @@ def run(ctx):
         lines = []
         for c, bid, sub, got in part:
             impl = gallina_list(["(" + gallina_str(p) + "," + str(t) + ")" for p, t in got])
-            lines.append(f"(stitch_check {gallina_layout(c['layout'])} {bid} {gallina_str(sub)} {impl})")
+            if sub.startswith("!"):
+                lines.append(f"(stitch_check_excl {gallina_layout(c['layout'])} {bid} {gallina_str(sub[1:])} {impl})")
+            else:
+                lines.append(f"(stitch_check {gallina_layout(c['layout'])} {bid} {gallina_str(sub)} {impl})")
         body = HEADER + """
 Definition ient_eqb (x y : ient) : bool := str_eqb (fst x) (fst y) && N.eqb (snd x) (snd y).
 Fixpoint ients_eqb (a b : list ient) : bool :=
   match a, b with [], [] => true | x :: a', y :: b' => ient_eqb x y && ients_eqb a' b' | _, _ => false end.
 Definition stitch_check (bands : list (N * iband)) (n : N) (sub : str) (impl : list ient) : N :=
   if ients_eqb (stitch_list_keep (fun e => is_prefix_of sub (fst e)) bands n) impl then 0 else 1.
+Definition stitch_check_excl (bands : list (N * iband)) (n : N) (x : str) (impl : list ient) : N :=
+  if ients_eqb (stitch_list_keep (fun e => negb (is_prefix_of x (fst e))) bands n) impl then 0 else 1.
 Definition results : list N := """ + gallina_list(lines) + ".\nEval vm_compute in first_diff results (map (fun _ => 0) results) 0.\n"
         jobs.append((s, part, body))
     agreed = 0
